@@ -520,6 +520,22 @@ pub proof fn lemma_frac_value(b: int, hex: bool, radix: int, gi: Seq<char>, gf: 
 }
 
 /// the postcondition from an explicit reading of the text
+/// resource limit: exponent overflow is a documented panic (C16), not modelled: the written value must leave
+/// `Repr::new` room for the exponent (`exp_room`, lib/round_float_repr.rs): the exponent of its LEADING digit fits isize
+/// under every reading of the text.  Otherwise (e.g. "10e9223372036854775807" in base 10) `normalize` overflows the
+/// exponent while stripping the trailing zero digits: debug builds panic, release builds return a wrapped exponent.
+#[verifier::opaque]
+pub open spec fn parse_room(src: Seq<char>, b: int) -> bool {
+    forall|d: FloatText| #[trigger] grammar(src, b, d) ==> exp_room(ft_exp(d), ndigits(b, ft_mant(b, d)) as int)
+}
+/// the significand / exponent pair (sv, e) handed to `Repr::new` denotes the written value: it has room
+pub proof fn lemma_parse_room(src: Seq<char>, b: int, d: FloatText, sv: int, e: int)
+    requires b >= 2, parse_room(src, b), grammar(src, b, d), same_value(b, sv, e, ft_mant(b, d), ft_exp(d)), e <= isize::MAX
+    ensures exp_room(e, ndigits(b, sv) as int)
+{
+    reveal(parse_room);
+    lemma_exp_room_value(b, sv, e, ft_mant(b, d), ft_exp(d));
+}
 pub proof fn lemma_parsed_ok<const B: Word>(src: Seq<char>, repr: Repr<B>, nd: usize, d: FloatText)
     requires grammar(src, B as int, d), nd as int == ft_prec(d),
         same_value(B as int, repr.significand.v(), repr.exponent as int, ft_mant(B as int, d), ft_exp(d)),
